@@ -9,6 +9,7 @@ data level (`mask_eq_delete`: the masked pieces *are* the pieces of the model bu
 only) and closed form (`… = mt + K*o (Aoo)⁻¹ r_o`, `K** − K*o (Aoo)⁻¹ Ko*`).
 -/
 import GPVerif.Bridge.NanMask
+import GPVerif.Bridge.GenAlgebra
 import Mathlib.Tactic.FieldSimp
 import Mathlib.Tactic.Ring
 
@@ -210,6 +211,90 @@ theorem policy_cache_keys_disjoint {β : Type} (compute : Policy → β) (ps : L
         · rename_i hq; subst hq; intro h; exact (Option.some.inj h).symm
         · exact hm q v
     rw [hv, ih _ hm']
+
+/-! ### The regenerated code (`GPVerif/Gen/ExactAlgebra.lean`, translator G7) deletes the missing observations
+
+Corollaries about the expressions extracted on every run from the Python AST of `_mean_cache` (mask / fill
+branches), `exact_predictive_mean`, `exact_predictive_covar` and `_exact_predictive_covar_missing_obs`; these are
+what `drivers/C16.lean` executes. -/
+
+section generated
+open Gen.ExactAlgebra
+variable {k : Nat}
+
+/-- The generated mean-cache branches are the model's `meanCache` / `meanCacheMask` / `meanCacheFill`. -/
+theorem gen_mean_cache_eq [DecidableEq α] (cfg : Cfg) (A : DMat n n α) (mx y : DMat n 1 α) (obs : Fin n → Bool) (c : α) :
+    mean_cache_ignore cfg A mx y = meanCache A (residual y mx) ∧
+      mean_cache_mask cfg A mx y obs = meanCacheMask A (residual y mx) obs ∧
+      mean_cache_fill cfg A mx y obs c = meanCacheFill A (residual y mx) obs c := by
+  refine ⟨?_, ?_, ?_⟩ <;>
+    simp [mean_cache_ignore, mean_cache_mask, mean_cache_fill, meanCache, meanCacheMask, meanCacheFill, solve?,
+      meanCacheOf, residual, Option.map_eq_bind]
+
+/-- Generated `exact_predictive_mean` under `mask` and under `fill` = deleted-data conditional mean. -/
+theorem gen_mean_missing_obs_eq_delete [DecidableEq α] (cfg : Cfg) (hp : cfg.policy ≠ Policy.ignore) (mt : DMat s 1 α)
+    (Kts : DMat s n α) (A : DMat n n α) (mx y : DMat n 1 α) (obs : Fin n → Bool) (c : α) (m : DMat s 1 α)
+    (hoo : IsUnit (A.toMatrix.submatrix (obsIdx obs) (obsIdx obs)).det)
+    (h : exact_predictive_mean cfg mt Kts A mx y obs c = some m) :
+    m.toMatrix = mt.toMatrix + Kts.toMatrix.submatrix id (obsIdx obs)
+        * (A.toMatrix.submatrix (obsIdx obs) (obsIdx obs))⁻¹ * (y.toMatrix - mx.toMatrix).submatrix (obsIdx obs) id := by
+  simp only [exact_predictive_mean, hp, if_false] at h
+  split_ifs at h
+  · simp only [Option.bind_eq_bind, Option.bind_eq_some_iff, Option.pure_def] at h
+    obtain ⟨x, hx, hm⟩ := h
+    have hx' : meanCacheMask A (residual y mx) obs = some x := by
+      simpa [meanCacheMask, meanCache, solve?, meanCacheOf, residual] using hx
+    have := pred_mean_mask_eq_delete A (residual y mx) mt Kts obs x hx'
+    rw [← Option.some.inj hm]
+    simp only [predMeanMask, predMean, residual, DMat.toMatrix_add, DMat.toMatrix_sub] at this ⊢
+    rw [add_comm]; exact this
+  · simp only [Option.bind_eq_bind, Option.bind_eq_some_iff, Option.pure_def] at h
+    obtain ⟨x, hx, hm⟩ := h
+    have hx' : meanCacheFill A (residual y mx) obs c = some x := by
+      simpa [meanCacheFill, meanCache, solve?, meanCacheOf, residual] using hx
+    have := pred_mean_fill_eq_delete A (residual y mx) mt Kts obs c c x hx' hoo
+    rw [← Option.some.inj hm]
+    simp only [predMeanFill, predMean, residual, DMat.toMatrix_add, DMat.toMatrix_sub] at this ⊢
+    rw [add_comm]; exact this
+
+/-- Generated `_exact_predictive_covar_missing_obs` (both policies), and generated `exact_predictive_covar` whenever
+the policy is not `ignore` (with or without `fast_pred_var`), = deleted-data conditional covariance. -/
+theorem gen_covar_missing_obs_eq_delete [DecidableEq α] (cfg : Cfg) (hp : cfg.policy ≠ Policy.ignore)
+    (hs : cfg.skip = false) (Ktt : DMat s s α) (Kts : DMat s n α) (A : DMat n n α) (R : DMat n k α)
+    (obs : Fin n → Bool) (hoo : IsUnit (A.toMatrix.submatrix (obsIdx obs) (obsIdx obs)).det) (C : DMat s s α)
+    (h : exact_predictive_covar_missing_obs cfg Ktt Kts A obs = some C ∨
+         exact_predictive_covar cfg Ktt Kts A R obs = some C) :
+    C.toMatrix = Ktt.toMatrix - Kts.toMatrix.submatrix id (obsIdx obs)
+        * (A.toMatrix.submatrix (obsIdx obs) (obsIdx obs))⁻¹ * (Kts.toMatrix.submatrix id (obsIdx obs))ᵀ := by
+  obtain ⟨hm, hf⟩ := pred_covar_nan_eq_delete Ktt Kts A obs hoo
+  have key : ∀ C, (cfg.policy = Policy.mask ∧ ∃ x, solve? (maskSub A obs) (maskCols Kts obs).transpose = some x ∧
+        C = Ktt.add ((maskCols Kts obs).mul (DMat.smul (-1 : α) x))) ∨
+      (∃ x, solve? (fill A obs) (zeroCols Kts obs).transpose = some x ∧
+        C = Ktt.add ((zeroCols Kts obs).mul (DMat.smul (-1 : α) x))) →
+      C.toMatrix = Ktt.toMatrix - Kts.toMatrix.submatrix id (obsIdx obs)
+        * (A.toMatrix.submatrix (obsIdx obs) (obsIdx obs))⁻¹ * (Kts.toMatrix.submatrix id (obsIdx obs))ᵀ := by
+    rintro C (⟨-, x, hx, rfl⟩ | ⟨x, hx, rfl⟩)
+    · have := hm (predCovarOfSolve Ktt (maskCols Kts obs) x) (by simp [predCovarMask, predCovarSolve, hx])
+      rw [← this]; simp [predCovarOfSolve, sub_eq_add_neg]
+    · have := hf (predCovarOfSolve Ktt (zeroCols Kts obs) x) (by simp [predCovarFill, predCovarSolve, hx])
+      rw [← this]; simp [predCovarOfSolve, sub_eq_add_neg]
+  apply key
+  rcases h with h | h
+  · simp only [exact_predictive_covar_missing_obs] at h
+    split_ifs at h with hmask <;>
+      simp only [Option.bind_eq_bind, Option.bind_eq_some_iff, Option.pure_def, Option.some.injEq] at h <;>
+      obtain ⟨x, hx, rfl⟩ := h
+    · exact Or.inl ⟨hmask, x, hx, rfl⟩
+    · exact Or.inr ⟨x, hx, rfl⟩
+  · simp only [exact_predictive_covar, hp, hs, if_false, Bool.false_eq_true] at h
+    split_ifs at h with h1 hmask hmask <;>
+      simp only [Option.bind_eq_bind, Option.bind_eq_some_iff, Option.pure_def, Option.some.injEq] at h <;>
+      obtain ⟨x, hx, rfl⟩ := h
+    all_goals first
+      | exact Or.inl ⟨hmask, x, hx, rfl⟩
+      | exact Or.inr ⟨x, hx, rfl⟩
+
+end generated
 
 /-! ### non-vacuity, and the defect -/
 
